@@ -32,7 +32,7 @@ EXPLANATION = ("explicit-state search over real calls: if every operation return
 
 
 def budget_s(tier):
-    return 400 if tier == "quick" else 3600
+    return 1200 if tier == "quick" else 5400
 
 
 # ------------------------------------------------------------------ canonical forms
